@@ -72,7 +72,7 @@ def run(tier, seed):
     vs = []
     drvd, _ = build.ensure('tsan')
     exe = os.path.join(drvd, 'vdrv')
-    plan = [(8, 40)] * 4 if tier == 'quick' else [(t, 48) for t in (2, 4, 8, 16) for _ in range(10)]
+    plan = [(8, 40), (2, 24), (16, 48), (4, 32)] if tier == 'quick' else [(t, 48) for t in (2, 3, 4, 8, 12, 16) for _ in range(7)]
     total_jobs = overlaps = reports_total = compared_files = calls = 0
     threads_seen = set()
     samples = []
